@@ -68,7 +68,12 @@ using namespace cds_utils;
 #include "utils/Coder/StatCoder.h"
 #include "utils/LogSequence.h"
 
+#if defined(LIBCSD_VERIF) && defined(LIBCSD_VERIF_MEMALLOC)
+// verification hook: a small initial reservation makes every buffer-growth path reachable with small inputs
+#define MEMALLOC LIBCSD_VERIF_MEMALLOC
+#else
 #define MEMALLOC 32768
+#endif
 
 class StringDictionaryHHTFC : public StringDictionary {
 public:
